@@ -820,7 +820,7 @@ func c17Counts(tier string) [6]int {
 	if tier == "thorough" {
 		return [6]int{6000000, 6000000, 1500000, 1500000, 60000, 60000}
 	}
-	return [6]int{100000, 100000, 20000, 20000, 400, 400}
+	return [6]int{300000, 300000, 60000, 60000, 1200, 1200}
 }
 
 func init() {
